@@ -13,7 +13,7 @@
   exceptions to that are copy assignment (`setBufCopy`, `Pool.assignCopy`: the target may be
   empty) and `deriveAll` (results already built stay).
 -/
-import StVerif.Lemmas.StrPoolOps
+import StVerif.Lemmas.StrPoolReach
 
 namespace StVerif.StrPool
 open StVerif StVerif.Pool
@@ -481,5 +481,202 @@ theorem deriveAll_f {p : Pool} (hI : Inv p) (ds : List (Nat × List Nat)) (hdead
       · exact Or.inl ⟨p2, by simp [deriveAll, h1, h2], Succ.trans' s1 s2 m1 m2⟩
       · exact Or.inr ⟨p2, by simp [deriveAll, h1, h2], by rw [← s1.failAt]; exact f2, Succ.trans' s1 s2 m1 m2⟩
     · exact Or.inr ⟨p1, by simp [deriveAll, h1], f1, s1.mono (fun _ h => h.elim)⟩
+
+/-! ### every string-level operation, any fault schedule -/
+
+/-- outcome of a string-level operation when an allocation may fail: it completes having changed only its targets; or it
+    throws an exception other than `bad_alloc` and nothing has changed; or it throws `bad_alloc` — only when a fault is
+    scheduled — having changed only its targets, each of which holds its previous value, or is empty, or was a constructor
+    target (then it does not exist, except for the results of a const operation built before the failing one).
+    In every case the invariant of C05 holds afterwards (`Succ.inv`) and no temporary survives. -/
+def SFOutcome (r : Res Unit) (p : Pool) (targets : List Nat) : Prop :=
+  (∃ p', r = .ok () p' ∧ Succ p p' (· ∈ targets) ∧ TempsDead p')
+  ∨ (∃ e p', r = .throw e p' ∧ e ≠ .badAlloc ∧ Succ p p' (fun _ => False) ∧ TempsDead p')
+  ∨ (∃ p', r = .throw .badAlloc p' ∧ p.failAt ≠ none ∧ Succ p p' (· ∈ targets) ∧ TempsDead p' ∧
+        ∀ t ∈ targets, view p' t = view p t ∨ view p' t = some (0, []) ∨ p.objs t = none)
+
+theorem tempsDead_of_user {p p' : Pool} {T : Nat → Prop} (s : Succ p p' T) (hT : TempsDead p) (hu : ∀ x, T x → userId x) :
+    TempsDead p' :=
+  tempsDead_of s hT fun x hx ht => absurd hx (userId_not_temp (hu x ht))
+
+theorem sf_of_ok {r : Res Unit} {p p' : Pool} {T : Nat → Prop} {targets : List Nat} (h : r = .ok () p') (s : Succ p p' T)
+    (hT : TempsDead p) (hsub : ∀ x, T x → x ∈ targets) (hu : ∀ x, T x → userId x) : SFOutcome r p targets :=
+  Or.inl ⟨p', h, s.mono hsub, tempsDead_of_user s hT hu⟩
+
+theorem sf_of_throwUnch {r : Res Unit} {p : Pool} {targets : List Nat} (h : ThrowUnch r p) (hT : TempsDead p) :
+    SFOutcome r p targets := by
+  obtain ⟨e, p', h1, s1, f1⟩ := h
+  have t1 : TempsDead p' := tempsDead_of s1 hT fun _ _ f => f.elim
+  by_cases he : e = .badAlloc
+  · subst he
+    exact Or.inr (Or.inr ⟨p', h1, f1 rfl, s1.mono (fun _ f => f.elim), t1, fun t _ => Or.inl (s1.view t (fun f => f))⟩)
+  · exact Or.inr (Or.inl ⟨e, p', h1, he, s1, t1⟩)
+
+theorem sf_of_cases {r : Res Unit} {p : Pool} {o : Nat} {targets : List Nat} (hT : TempsDead p) (ho : o ∈ targets) (hu : userId o)
+    (h : (∃ p', r = .ok () p' ∧ Succ p p' (· = o) ∧ alive p' o) ∨ ThrowUnch r p) : SFOutcome r p targets := by
+  rcases h with ⟨p', h1, s1, _⟩ | h
+  · exact sf_of_ok h1 s1 hT (fun x hx => hx ▸ ho) (fun x hx => hx ▸ hu)
+  · exact sf_of_throwUnch h hT
+
+/-- a buffer-level operation lifted to the string level, any fault schedule -/
+theorem lift_stepF {p : Pool} (hI : Inv p) (hT : TempsDead p) (op : Op) (hpre : Pool.pre op p)
+    (targets : List Nat) (hsub : ∀ x, op.T x → x ∈ targets) (hu : ∀ x, op.T x → userId x)
+    (hth : ∀ p', throwPost p op p' → ∀ t ∈ targets, view p' t = view p t ∨ view p' t = some (0, []) ∨ p.objs t = none) :
+    SFOutcome (op.run p) p targets := by
+  rcases stepF hI op hpre with ⟨p', h1, s1, _⟩ | ⟨p', h1, f1, s1, q1⟩
+  · exact sf_of_ok h1 s1 hT hsub hu
+  · exact Or.inr (Or.inr ⟨p', h1, f1, s1.mono hsub, tempsDead_of_user s1 hT hu, hth p' q1⟩)
+
+theorem userId_bufSlot : userId bufSlot := by unfold userId bufSlot; omega
+
+/-- **every string-level operation, any fault schedule**: see `SFOutcome`; in particular never a memory fault -/
+theorem sop_fault_spec {p : Pool} (hI : Inv p) (hT : TempsDead p) (op : SOp) (hpre : op.pre p) :
+    SFOutcome (op.run p) p op.targets := by
+  have dA := hT tmpA isTemp_A
+  have dB := hT tmpB isTemp_B
+  have dC := hT tmpC isTemp_C
+  have ne : ∀ {o : Nat}, userId o → o ≠ tmpA ∧ o ≠ tmpB ∧ o ≠ tmpC ∧ o ≠ tmpD := by
+    intro o h; unfold userId at h; unfold tmpA tmpB tmpC tmpD; omega
+  cases op with
+  | ctorText o us m =>
+    obtain ⟨hu, ho⟩ := hpre
+    obtain ⟨nA, _, nC, _⟩ := ne hu
+    exact sf_of_cases hT (by simp [SOp.targets]) hu (ctorText_f hI ho dA dC nA nC us m)
+  | ctorDefault o =>
+    obtain ⟨hu, ho⟩ := hpre
+    exact lift_stepF hI hT (.ctorDefault o) ho _ (fun x h => by simp only [Op.T] at h; simp [SOp.targets, h])
+      (fun x h => by simp only [Op.T] at h; subst h; exact hu) (fun _ h => h.elim)
+  | ctorCopy o s =>
+    obtain ⟨hu, _, ho, hs⟩ := hpre
+    exact lift_stepF hI hT (.ctorCopy o s) ⟨ho, hs⟩ _ (fun x h => by simp only [Op.T] at h; simp [SOp.targets, h])
+      (fun x h => by simp only [Op.T] at h; subst h; exact hu)
+      (fun _ _ t ht => by simp only [SOp.targets, List.mem_cons, List.not_mem_nil, or_false] at ht; subst ht; exact Or.inr (Or.inr ho))
+  | ctorMove o s =>
+    obtain ⟨hu, hus, ho, hs⟩ := hpre
+    exact lift_stepF hI hT (.ctorMove o s) ⟨ho, hs⟩ _
+      (fun x h => by simp only [Op.T] at h; simp only [SOp.targets, List.mem_cons, List.not_mem_nil, or_false]; exact h)
+      (fun x h => by simp only [Op.T] at h; rcases h with rfl | rfl; exact hu; exact hus) (fun _ h => h.elim)
+  | dtor o =>
+    obtain ⟨hu, ho⟩ := hpre
+    exact lift_stepF hI hT (.dtor o) ho _ (fun x h => by simp only [Op.T] at h; simp [SOp.targets, h])
+      (fun x h => by simp only [Op.T] at h; subst h; exact hu) (fun _ h => h.elim)
+  | clear o =>
+    obtain ⟨hu, ho⟩ := hpre
+    exact lift_stepF hI hT (.clear o) ho _ (fun x h => by simp only [Op.T] at h; simp [SOp.targets, h])
+      (fun x h => by simp only [Op.T] at h; subst h; exact hu) (fun _ h => h.elim)
+  | assignCopy o s =>
+    obtain ⟨hu, _, ho, hs⟩ := hpre
+    exact lift_stepF hI hT (.assignCopy o s) ⟨ho, hs⟩ _ (fun x h => by simp only [Op.T] at h; simp [SOp.targets, h])
+      (fun x h => by simp only [Op.T] at h; subst h; exact hu)
+      (fun p' q t ht => by
+        simp only [SOp.targets, List.mem_cons, List.not_mem_nil, or_false] at ht; subst ht
+        exact q.elim Or.inl (fun h => Or.inr (Or.inl h)))
+  | assignMove o s =>
+    obtain ⟨hu, hus, ho, hs⟩ := hpre
+    exact lift_stepF hI hT (.assignMove o s) ⟨ho, hs⟩ _
+      (fun x h => by simp only [Op.T] at h; simp only [SOp.targets, List.mem_cons, List.not_mem_nil, or_false]; exact h)
+      (fun x h => by simp only [Op.T] at h; rcases h with rfl | rfl; exact hu; exact hus) (fun _ h => h.elim)
+  | appendStr o s =>
+    obtain ⟨hu, _, ho, hs⟩ := hpre
+    obtain ⟨_, nB, _, _⟩ := ne hu
+    exact sf_of_cases hT (by simp [SOp.targets]) hu (appendStr_f hI ho hs dA dB nB)
+  | appendText o us m =>
+    obtain ⟨hu, ho⟩ := hpre
+    exact sf_of_cases hT (by simp [SOp.targets]) hu (appendText_f hI ho hT (userId_not_temp hu) us m)
+  | appendChar o ch =>
+    obtain ⟨hu, ho⟩ := hpre
+    obtain ⟨_, nB, _, _⟩ := ne hu
+    exact sf_of_cases hT (by simp [SOp.targets]) hu (appendChar_f hI ho dA dB nB ch)
+  | setText o us m =>
+    obtain ⟨hu, ho⟩ := hpre
+    obtain ⟨nA, _, nC, _⟩ := ne hu
+    exact sf_of_cases hT (by simp [SOp.targets]) hu (setUtf8_f hI ho dA dC nA nC us m)
+  | setConv o c =>
+    obtain ⟨hu, ho, hc⟩ := hpre
+    obtain ⟨nA, _, _, _⟩ := ne hu
+    exact sf_of_cases hT (by simp [SOp.targets]) hu (setConverted_f hI ho dA nA hc)
+  | assignConv o c =>
+    obtain ⟨hu, ho, hc⟩ := hpre
+    obtain ⟨_, nB, _, _⟩ := ne hu
+    exact sf_of_cases hT (by simp [SOp.targets]) hu (assignConverted_f hI ho dA dB nB hc)
+  | bufCtor us =>
+    exact lift_stepF hI hT (.ctorUnits bufSlot us) hpre _ (fun x h => by simp only [Op.T] at h; simp [SOp.targets, h])
+      (fun x h => by simp only [Op.T] at h; subst h; exact userId_bufSlot)
+      (fun _ _ t ht => by simp only [SOp.targets, List.mem_cons, List.not_mem_nil, or_false] at ht; subst ht; exact Or.inr (Or.inr hpre))
+  | setBufMove o m =>
+    obtain ⟨hu, _, ho, ⟨bb, hb⟩⟩ := hpre
+    obtain ⟨_, _, nC, _⟩ := ne hu
+    rcases setBufMove_f hI ho hb dC nC m with ⟨p', h1, s1, _⟩ | h
+    · exact sf_of_ok h1 s1 hT (fun x hx => by simp only [SOp.targets, List.mem_cons, List.not_mem_nil, or_false]; exact hx)
+        (fun x hx => by rcases hx with rfl | rfl; exact hu; exact userId_bufSlot)
+    · exact sf_of_throwUnch h hT
+  | setBufCopy o m =>
+    obtain ⟨hu, _, ho, ⟨bb, hb⟩⟩ := hpre
+    obtain ⟨_, _, nC, _⟩ := ne hu
+    rcases setBufCopy_f hI ho hb dC nC m with h | h | ⟨p', h1, f1, s1, v1⟩
+    · exact sf_of_cases hT (by simp [SOp.targets]) hu (Or.inl h)
+    · exact sf_of_throwUnch h hT
+    · have hsub : ∀ x, x = o → x ∈ (SOp.setBufCopy o m).targets := fun x hx => by simp [SOp.targets, hx]
+      refine Or.inr (Or.inr ⟨p', h1, f1, s1.mono hsub, tempsDead_of_user s1 hT (fun x hx => hx ▸ hu), fun t ht => ?_⟩)
+      simp only [SOp.targets, List.mem_cons, List.not_mem_nil, or_false] at ht; subst ht
+      exact v1.elim Or.inl (fun h => Or.inr (Or.inl h))
+  | ctorBufMove o m =>
+    obtain ⟨hu, _, ho, ⟨bb, hb⟩⟩ := hpre
+    obtain ⟨_, _, nC, _⟩ := ne hu
+    rcases ctorBufMove_f hI ho hb dC nC m with ⟨p', h1, s1, _⟩ | h
+    · exact sf_of_ok h1 s1 hT (fun x hx => by simp only [SOp.targets, List.mem_cons, List.not_mem_nil, or_false]; exact hx.symm)
+        (fun x hx => by rcases hx with rfl | rfl; exact userId_bufSlot; exact hu)
+    · exact sf_of_throwUnch h hT
+  | ctorBufCopy o m =>
+    obtain ⟨hu, _, ho, ⟨bb, hb⟩⟩ := hpre
+    obtain ⟨_, _, nC, _⟩ := ne hu
+    exact sf_of_cases hT (by simp [SOp.targets]) hu (ctorBufCopy_f hI ho hb dC nC m)
+  | derive ds =>
+    obtain ⟨hd, hnd⟩ := hpre
+    rcases deriveAll_f hI ds (fun d h => (hd d h).2) hnd with ⟨p', h1, s1⟩ | ⟨p', h1, f1, s1⟩
+    · exact sf_of_ok h1 s1 hT (fun x hx => hx) (fun x hx => (hd x hx).1)
+    · exact Or.inr (Or.inr ⟨p', h1, f1, s1, tempsDead_of_user s1 hT (fun x hx => (hd x hx).1), fun t ht => Or.inr (Or.inr (hd t ht).2)⟩)
+  | deriveThrow e =>
+    exact Or.inr (Or.inl ⟨e, p, rfl, hpre, hI.succ_refl _, hT⟩)
+  | query =>
+    exact Or.inl ⟨p, rfl, hI.succ_refl _, hT⟩
+
+/-! ### histories under fault schedules -/
+
+/-- states reachable by any finite history of string-level operations in which any fault schedule may be installed
+    before any operation (an operation that throws — `bad_alloc` included — is part of the history like any other) -/
+inductive SReachF (L : Nat) : Pool → Prop
+  | init : SReachF L (Pool.init L)
+  | ok {p p' : Pool} {op : SOp} : SReachF L p → op.pre p → op.run p = .ok () p' → SReachF L p'
+  | thrown {p p' : Pool} {op : SOp} {e : Exc} : SReachF L p → op.pre p → op.run p = .throw e p' → SReachF L p'
+  | arm {p : Pool} (f : Option Nat) : SReachF L p → SReachF L { p with failAt := f }
+
+theorem inv_setFailAt {p : Pool} (hI : Inv p) (f : Option Nat) : Inv { p with failAt := f } :=
+  hI.congr (p' := { p with failAt := f }) rfl (fun _ => rfl) (fun _ => rfl) rfl
+
+/-- every such state satisfies the invariant and has no temporary alive -/
+theorem sreachF_inv {L : Nat} (hL : 0 < L) {p : Pool} (h : SReachF L p) : Inv p ∧ TempsDead p := by
+  induction h with
+  | init => exact ⟨Props.C05.inv_init L hL, tempsDead_init L⟩
+  | @ok p p' op _ hpre hrun ih =>
+    obtain ⟨hI, hT⟩ := ih
+    rcases sop_fault_spec hI hT op hpre with ⟨p'', h1, s1, t1⟩ | ⟨e, p'', h1, _⟩ | ⟨p'', h1, _⟩
+    · rw [hrun] at h1; cases h1; exact ⟨s1.inv, t1⟩
+    · rw [hrun] at h1; cases h1
+    · rw [hrun] at h1; cases h1
+  | @thrown p p' op e _ hpre hrun ih =>
+    obtain ⟨hI, hT⟩ := ih
+    rcases sop_fault_spec hI hT op hpre with ⟨p'', h1, _⟩ | ⟨e', p'', h1, _, s1, t1⟩ | ⟨p'', h1, _, s1, t1, _⟩
+    · rw [hrun] at h1; cases h1
+    · rw [hrun] at h1; cases h1; exact ⟨s1.inv, t1⟩
+    · rw [hrun] at h1; cases h1; exact ⟨s1.inv, t1⟩
+  | arm f _ ih => exact ⟨inv_setFailAt ih.1 f, ih.2⟩
+
+/-- a history without faults is a history -/
+theorem SReach.toF {L : Nat} {p : Pool} (h : SReach L p) : SReachF L p := by
+  induction h with
+  | init => exact .init
+  | ok _ hpre hrun ih => exact .ok ih hpre hrun
+  | thrown _ hpre hrun ih => exact .thrown ih hpre hrun
 
 end StVerif.StrPool
